@@ -3,7 +3,7 @@
 
 use crate::{compare_tol, parts_to_json};
 use explore::{guarded, hash64, par_for, Stats, Violation};
-use refmodel::DD;
+use refmodel::{Scalar, DD};
 use serde_json::{json, Value};
 use std::collections::HashSet;
 use std::sync::Mutex;
@@ -148,7 +148,10 @@ pub fn bfs_programs<F: Flt, D: Subject<F>>(
                 return;
             }
             let want = apply_ref(step.op, &a, F::U);
-            if !want.v.c.iter().all(|c| c.is_finite() && c.hi.abs() < 1e30) || !want.e.c.iter().all(|c| c.is_finite()) {
+            // the rounding model assumes no overflow / underflow of intermediates: keep every
+            // non-zero reference coefficient well inside the range of F (cubes must be representable)
+            let (lo, hi) = if F::PREC < 53 { (1e-12, 1e12) } else { (1e-100, 1e100) };
+            if !want.v.c.iter().all(|c| c.is_finite() && (c.is_zero() || (c.hi.abs() < hi && c.hi.abs() > lo))) || !want.e.c.iter().all(|c| c.is_finite()) {
                 checked.lock().unwrap().1 += 1;
                 return;
             }
